@@ -26,6 +26,11 @@ func newStringPrefixFilter(code *syntax.Code) StringPrefixFilter {
 	if code == nil || code.RightToLeft || code.FindOptimizations == nil {
 		return nil
 	}
+	if code.UsesStartAnchor() {
+		// the filter's candidate becomes the start offset of the scan, which is also where \G
+		// is anchored: skipping ahead would let \G match at the candidate instead of the real start
+		return nil
+	}
 
 	opts := code.FindOptimizations
 	minRequiredLength := opts.MinRequiredLength
